@@ -66,7 +66,10 @@ type twin struct {
 type twinCtxKey struct{}
 
 // twinEnabled: the validator twin and the settings-accessor oracle run (C01 only; VERIF_SERIX_TWIN=0 switches them off).
-var twinEnabled = os.Getenv("VERIF_SERIX_TWIN") != "0"
+var (
+	twinMode    = os.Getenv("VERIF_SERIX_TWIN") // "settings" / "validators": only that half (timing experiments)
+	twinEnabled = twinMode != "0"
+)
 
 var (
 	ctxType     = reflect.TypeOf((*context.Context)(nil)).Elem()
@@ -86,13 +89,32 @@ func fnv64(s string) uint64 {
 // ---- value text that needs no schema (a validator only knows the type it was registered for) ----
 
 func vtext(v reflect.Value, canon bool) string {
-	var b strings.Builder
+	var b tbuf
 	vtextTo(&b, v, canon)
 
 	return b.String()
 }
 
-func vtextTo(b *strings.Builder, v reflect.Value, canon bool) {
+// tbuf: a text under construction; sens is set when the exact text meets something the canonical text prints
+// differently (an out-of-range timestamp, a collection of two or more elements).
+type tbuf struct {
+	strings.Builder
+	sens bool
+}
+
+// vtexts: the exact and the canonical text of a value (one pass when nothing inside is order- or range-sensitive).
+func vtexts(v reflect.Value) (exact, canon string) {
+	var b tbuf
+	vtextTo(&b, v, false)
+	exact = b.String()
+	if !b.sens {
+		return exact, exact
+	}
+
+	return exact, vtext(v, true)
+}
+
+func vtextTo(b *tbuf, v reflect.Value, canon bool) {
 	if !v.IsValid() {
 		b.WriteString("invalid")
 
@@ -102,6 +124,9 @@ func vtextTo(b *strings.Builder, v reflect.Value, canon bool) {
 	switch t {
 	case timeType:
 		n := TimeNanos(v.Interface().(time.Time))
+		if n.Sign() < 0 || n.Cmp(maxInt64Big) > 0 {
+			b.sens = true
+		}
 		if canon {
 			n = SaturateNanos(n)
 		}
@@ -181,7 +206,13 @@ func vtextTo(b *strings.Builder, v reflect.Value, canon bool) {
 		}
 		items := make([]string, v.Len())
 		for i := range items {
-			items[i] = vtext(v.Index(i), canon)
+			var ib tbuf
+			vtextTo(&ib, v.Index(i), canon)
+			items[i] = ib.String()
+			b.sens = b.sens || ib.sens
+		}
+		if len(items) >= 2 {
+			b.sens = true
 		}
 		if canon {
 			sort.Strings(items)
@@ -191,7 +222,14 @@ func vtextTo(b *strings.Builder, v reflect.Value, canon bool) {
 		items := make([]string, 0, v.Len())
 		iter := v.MapRange()
 		for iter.Next() {
-			items = append(items, "(kv "+vtext(iter.Key(), canon)+" "+vtext(iter.Value(), canon)+")")
+			var ib tbuf
+			ib.WriteString("(kv ")
+			vtextTo(&ib, iter.Key(), canon)
+			ib.WriteString(" ")
+			vtextTo(&ib, iter.Value(), canon)
+			ib.WriteString(")")
+			items = append(items, ib.String())
+			b.sens = b.sens || ib.sens
 		}
 		sort.Strings(items)
 		b.WriteString("(m" + joinSp(items) + ")")
@@ -267,7 +305,19 @@ func positionTypes(s *Schema) []reflect.Type {
 	return out
 }
 
+var typeClassCache = map[reflect.Type]string{}
+
 func typeClass(t reflect.Type) string {
+	if c, ok := typeClassCache[t]; ok {
+		return c
+	}
+	c := typeClass1(t)
+	typeClassCache[t] = c
+
+	return c
+}
+
+func typeClass1(t reflect.Type) string {
 	base := t
 	if t.Kind() == reflect.Ptr {
 		base = t.Elem()
@@ -448,7 +498,8 @@ func (tw *twin) register(x *Runner, rng *hx.Rng, t reflect.Type, valid bool, var
 			if c, ok := args[0].Interface().(context.Context); !ok || c.Value(twinCtxKey{}) != "twin" {
 				tw.badCtx++
 			}
-			c := vcall{t: t, exact: vtext(args[1], false), canon: vtext(args[1], true)}
+			c := vcall{t: t}
+			c.exact, c.canon = vtexts(args[1])
 			if tw.rejecting && r.rejects(c.canon) {
 				c.rejected = true
 			}
@@ -512,7 +563,8 @@ func (tw *twin) expectCall(t reflect.Type, v reflect.Value, where string, ex *ex
 	if t.Kind() == reflect.Ptr {
 		lookup = "pointer-validator"
 	}
-	c := vcall{t: t, exact: vtext(v, false), canon: vtext(v, true), top: where == "top", where: where + ":" + lookup + ":" + typeClass(t)}
+	c := vcall{t: t, top: where == "top", where: where + ":" + lookup + ":" + typeClass(t)}
+	c.exact, c.canon = vtexts(v)
 	if r.rejects(c.canon) {
 		c.rejected = true
 		ex.rejected++
@@ -820,6 +872,7 @@ func (x *Runner) twinEnc(v reflect.Value, validation bool, b []byte, out string)
 	}
 	// bytes produced by the plain API (either mode), decoded with validation
 	dop := "dec v " + hexs(b)
+	x.pickTwin(dop) // the twin a `dec v` line of these bytes runs on, so that the op alone replays the finding
 	x.twinDecode(b, dop, s, v, true)
 	x.twLastDec = string(b)
 }
